@@ -68,7 +68,11 @@ func AuthHash(auth uint8) func() hash.Hash {
 // HMAC computes the full-length HMAC of the concatenation of parts under the
 // authentication algorithm's hash.
 func HMAC(auth uint8, key []byte, parts ...[]byte) []byte {
-	h := hmac.New(AuthHash(auth), key)
+	hf := AuthHash(auth)
+	if hf == nil {
+		hf = sha1.New // unknown algorithm: any consistent choice (see C12)
+	}
+	h := hmac.New(hf, key)
 	for _, p := range parts {
 		h.Write(p)
 	}
@@ -175,7 +179,11 @@ func (r *RAKP) SIK(kg []byte) []byte {
 
 // RAKP4ICV = HMAC_SIK(Rm, SIDc, GUIDc) truncated per algorithm.
 func (r *RAKP) RAKP4ICV(sik []byte) []byte {
-	return HMAC(r.Auth, sik, r.RM[:], le32(r.SIDC), r.GUID[:])[:ICVLen(r.Auth)]
+	n := ICVLen(r.Auth)
+	if n == 0 {
+		n = 12
+	}
+	return HMAC(r.Auth, sik, r.RM[:], le32(r.SIDC), r.GUID[:])[:n]
 }
 
 // Kn = HMAC_SIK(n repeated 20 times).
